@@ -856,6 +856,7 @@ class FuncBitRotateLeft(ValueFunc):
             raise CklRuntimeError(
                 ValueString("ERROR"), "negative shift count", pos
             )
+        n = n % 32
         return ValueInt(((a << n) | (a >> (32 - n))) & 0xFFFFFFFF)
 
 
@@ -884,6 +885,7 @@ class FuncBitRotateRight(ValueFunc):
             raise CklRuntimeError(
                 ValueString("ERROR"), "negative shift count", pos
             )
+        n = n % 32
         return ValueInt(((a >> n) | (a << (32 - n))) & 0xFFFFFFFF)
 
 
